@@ -2096,6 +2096,15 @@ where
     where
         K::Scalar: CoordinateScalar,
     {
+        #[cfg(delaunay_verif)]
+        if crate::verif::fail::hit("prim.validate_geometric_orientation") {
+            return Err(TriangulationValidationError::Tds(
+                TdsValidationError::InconsistentDataStructure {
+                    message: "verif: injected failure at prim.validate_geometric_orientation"
+                        .to_string(),
+                },
+            ));
+        }
         for (cell_key, cell) in self.tds.cells() {
             let orientation = self.evaluate_cell_orientation_for_context(
                 cell_key,
@@ -2278,6 +2287,14 @@ where
     where
         K::Scalar: CoordinateScalar,
     {
+        #[cfg(delaunay_verif)]
+        if crate::verif::fail::hit("prim.normalize_and_promote") {
+            return Err(InsertionError::TopologyValidation(
+                TdsValidationError::InconsistentDataStructure {
+                    message: "verif: injected failure at prim.normalize_and_promote".to_string(),
+                },
+            ));
+        }
         self.tds.normalize_coherent_orientation()?;
         for _ in 0..3 {
             if !self.promote_cells_to_positive_orientation()? {
@@ -2311,6 +2328,14 @@ where
     where
         K::Scalar: CoordinateScalar,
     {
+        #[cfg(delaunay_verif)]
+        if crate::verif::fail::hit("prim.canonicalize_cells") {
+            return Err(InsertionError::TopologyValidation(
+                TdsValidationError::InconsistentDataStructure {
+                    message: "verif: injected failure at prim.canonicalize_cells".to_string(),
+                },
+            ));
+        }
         for &cell_key in cells {
             let orientation = {
                 let cell = self.tds.get_cell(cell_key).ok_or_else(|| {
